@@ -264,17 +264,18 @@ class PoolRun:
                     pass
         cs = 1
         events = []
+        wid = lambda w: 0 if w is None else w      # 0: a thread that is not a worker of the pool (the caller's own)  # noqa
         for ev in sched.log:
             if ev[0] == "map":
                 cs = ev[3]
             elif ev[0] == "take":
-                events.append({"e": "take", "w": ev[1], "t": ev[2], "raised": False})
+                events.append({"e": "take", "w": wid(ev[1]), "t": ev[2], "raised": False})
             elif ev[0] == "check":
-                events.append({"e": "check", "w": ev[1], "t": ev[2], "raised": bool(ev[3])})
+                events.append({"e": "check", "w": wid(ev[1]), "t": ev[2], "raised": bool(ev[3])})
             elif ev[0] == "fill":
-                events.append({"e": "fill", "w": ev[1], "t": ev[2], "raised": False})
+                events.append({"e": "fill", "w": wid(ev[1]), "t": ev[2], "raised": False})
             elif ev[0] == "end" and mode == "pool":
-                events.append({"e": "end", "w": ev[1], "t": ev[2], "raised": False})
+                events.append({"e": "end", "w": wid(ev[1]), "t": ev[2], "raised": False})
         trace = {"mode": mode, "P": P if mode == "pool" else 0, "T": self.T, "CS": cs, "faults": sorted(faults),
                  "events": events, "outcome": outcome, "tagok": bool(tagok), "sameasserial": True, "secondok": True,
                  "steps": sched.steps, "switches": sched.switches, "pools": sched.pools}
